@@ -3898,6 +3898,16 @@ func (c *Compiler) setWasmGlobalValue(index wasm.Index, v ssa.Value) {
 
 	// The value has changed to `v`, so we record it.
 	builder.DefineVariableInCurrentBB(variable, v)
+
+	// A module may import one and the same global more than once: the other mutable imported globals of this type
+	// might be this very global instance, so what is cached for them is stale now.
+	if index < c.m.ImportGlobalCount {
+		for _, other := range c.mutableGlobalVariablesIndexes {
+			if other != index && other < c.m.ImportGlobalCount && c.globalVariablesTypes[other] == c.globalVariablesTypes[index] {
+				c.getWasmGlobalValue(other, true)
+			}
+		}
+	}
 }
 
 func (c *Compiler) getWasmGlobalValue(index wasm.Index, forceLoad bool) ssa.Value {
